@@ -316,8 +316,15 @@ def coq_eval(name, body, prelude=COQ_PRELUDE, timeout=900):
         if line.startswith("-Q"):
             _, dd, ns = line.split()
             args += ["-Q", os.path.join(COQ, dd), ns]
+    def big_stack():
+        # vm_compute recurses on the system stack (string appends over whole files): lift the 8 MB default
+        import resource
+        try:
+            resource.setrlimit(resource.RLIMIT_STACK, (resource.RLIM_INFINITY, resource.RLIM_INFINITY))
+        except (ValueError, OSError):
+            pass
     r = subprocess.run(["timeout", str(timeout), "coqc"] + args + [path], stdout=subprocess.PIPE, stderr=subprocess.PIPE,
-                       cwd=d)
+                       cwd=d, preexec_fn=big_stack)
     out = r.stdout.decode("latin-1")
     err = r.stderr.decode("latin-1")
     return r.returncode, out, err
